@@ -295,28 +295,18 @@ class Capabilities(dict[int, Capability]):
         # Extended optional parameters (RFC 9072)
         option_len: int = data[0]
 
-        # Check for extended format marker
-        if option_len == Capabilities.EXTENDED_LENGTH:
-            # Extended format needs at least 4 bytes: marker + type + 2-byte length
-            if len(data) < 4:
-                raise Notify(2, 0, f'OPEN extended parameters too short: need 4 bytes, got {len(data)}')
-            option_type: int = data[1]
-            if option_type == Capabilities.EXTENDED_LENGTH:
-                option_len = unpack('!H', data[2:4])[0]
-                if len(data) < option_len + 4:
-                    raise Notify(
-                        2, 0, f'OPEN extended parameters truncated: need {option_len + 4} bytes, got {len(data)}'
-                    )
-                data = data[4 : option_len + 4]
-                decoder = _extended_type_length
-            else:
-                # Standard format with option_len=255
-                if len(data) < option_len + 1:
-                    raise Notify(2, 0, f'OPEN parameters truncated: need {option_len + 1} bytes, got {len(data)}')
-                data = data[1 : option_len + 1]
-                decoder = _key_values
+        # RFC 9072 section 2: the extended encoding is announced by the Non-Ext OP Type octet (the
+        # second one) being 255.  The Non-Ext OP Len octet before it SHOULD be 255 but, once the
+        # extended encoding has been determined, it "MUST be ignored on receipt"; it is never 0,
+        # which in the base encoding means that there is no parameter at all.
+        if option_len != 0 and len(data) >= 4 and data[1] == Capabilities.EXTENDED_LENGTH:
+            option_len = unpack('!H', data[2:4])[0]
+            if len(data) < option_len + 4:
+                raise Notify(2, 0, f'OPEN extended parameters truncated: need {option_len + 4} bytes, got {len(data)}')
+            data = data[4 : option_len + 4]
+            decoder = _extended_type_length
         else:
-            # Standard format
+            # Standard format (a length of 255 included: its first parameter type is not 255)
             if len(data) < option_len + 1:
                 raise Notify(2, 0, f'OPEN parameters truncated: need {option_len + 1} bytes, got {len(data)}')
             data = data[1 : option_len + 1]
